@@ -30,7 +30,7 @@ CHECKS = [
         NOTE + "Not decided: that ILLsimplex_infcertificate produces a ray that passes (completeness).",
         TECH, "DESIGN.md 4/C02"),
     chk("C05", "proof",
-        "Invalidation half: every public edit wrapper of qsopt.c under contract: success drops the cached solution and marks the problem modified (I1), success of a matrix/dimension edit clears the factorization flag (I2), failure leaves cache/status/flag/basis untouched (I3); unbounded (loop-free) modular proofs with the library callee as a nondeterministic stub. Also: the solve entry points QSopt_primal / QSopt_dual / opt_work (a solve re-reads the problem unless the factorization flag is set), the accessor wrappers (a modified problem serves no solution), ILLlib_chgsense / chgrange / delrows updating every dependent field (bounded).",
+        "Invalidation half: every public edit wrapper of qsopt.c under contract: success drops the cached solution and marks the problem modified (I1), success of a matrix/dimension edit clears the factorization flag (I2), failure leaves cache/status/flag/basis untouched (I3); unbounded (loop-free) modular proofs with the library callee as a nondeterministic stub. Also: the solve entry points QSopt_primal / QSopt_dual / opt_work (a solve re-reads the problem unless the factorization flag is set), the accessor wrappers (a modified problem serves no solution), ILLlib_chgsense / chgrange / delrows updating every dependent field (bounded), QSchange_senses / QSchange_sense keeping the stored basis loadable (no 'at upper' status for a row that is no longer ranged).",
         NOTE + "Not decided: 'the next solve equals a from-scratch solve' (solver correctness).",
         TECH, "DESIGN.md 4/C05"),
     chk("C06", "proof",
@@ -44,12 +44,12 @@ CHECKS = [
         NOTE + "Not decided: grammar-level rules (keyword spellings, comments, line structure, sections), repeated-term merging in constraint rows (buildMatrix: symbolic-size allocations exhaust the solver), the LP-format bound section parser, digit counts beyond the stated bound.",
         TECH, "DESIGN.md 4/C10"),
     chk("C11", "other",
-        "Per-function bounded contract checks of reader functions for every byte content of their (capacity-reduced) buffers: the literal scanner on arbitrary short strings (no division by zero, no out-of-bounds read), the three error formatters for every formatted length (no write outside the 256-byte buffer, error reaches the collector), next_line progress (consumes a line or sets eof). Also: twelve character-level scanners of the LP reader and five of the MPS reader on every line content of at most 4 bytes with arbitrary stale bytes behind the terminator (the cursor stays inside the line text; fields are terminated), the basis-file reader ILLlib_readbasis on every sequence of at most 4 records, transferRanges on N rows, the symbol table scenarios.",
-        NOTE + "Not decided: whole-file behaviour, compressed streams, reader functions not listed in the evidence; buffer capacity ILL_namebufsize is reduced from 131072 to 512 (16 for the character-level scanner groups) in the scratch copy for these groups (one #define line, must-fire); the section state machine of the MPS / LP parsers (mps.c read_mps_section / read_mps_line_in_section, lp.c) is not under contract.",
+        "Per-function bounded contract checks of reader functions for every byte content of their (capacity-reduced) buffers: the literal scanner on arbitrary short strings (no division by zero, no out-of-bounds read), the three error formatters for every formatted length (no write outside the 256-byte buffer, error reaches the collector), next_line progress (consumes a line or sets eof). Also: twelve character-level scanners of the LP reader and five of the MPS reader on every line content of at most 4 bytes with arbitrary stale bytes behind the terminator (the cursor stays inside the line text; fields are terminated), the basis-file reader ILLlib_readbasis on every sequence of at most 4 records, transferRanges on N rows, the symbol table scenarios, the MPS section state machine (ILLread_mps, read_mps_section, read_mps_line_in_section and the name / objective-sense handlers) on every file of at most 3 (quick) / 4 (thorough) lines -- no row is added after an accepted RHS / RANGES header, no column after a BOUNDS header, handlers only in the first occurrence of a section --, the four MPS data-line handlers with every callee returning arbitrary results, and buildMatrix on one constructed shape (dropped column before a repeated term).",
+        NOTE + "Not decided: whole-file behaviour, compressed streams, reader functions not listed in the evidence; buffer capacity ILL_namebufsize is reduced from 131072 to 512 (16 for the character-level scanner groups) in the scratch copy for these groups (one #define line, must-fire); the section state machine of the LP parser (lp.c) is not under contract; special ordered sets in the reader are beyond the tool (tried, see DESIGN.md 9.2).",
         TECH, "DESIGN.md 4/C11"),
     chk("C12", "other",
-        "Verdict/plumbing layer only. (i) the exact verdict loops ILLfct_check_dfeasible / ILLfct_check_pfeasible under contract with inductive loop invariants (dfcc): FEASIBLE is answered only if no position violates the sign / bound condition (stated at a ghost position; position map capped at 64 entries); (ii) bounded contract checks of ILLbasis_load (status codes -> internal vstat/baz/nbaz/vindex, one basic variable per row position) and of QSload_basis / QSload_basis_array (well-formed bases accepted and stored entry by entry). (iii) ILLfct_compute_dz against its definition in exact arithmetic (bounded 2x2); (iv) ILLlib_getbasis under loop contracts (every returned status is the solver's status, through the column / row maps; maps capped at 64); (v) the plumbing of QSexact_basis_optimalstatus / QSexact_basis_dualstatus (basic solution recomputed for the basis under test, checks with tolerance zero, verdict taken from the flags), callees as arbitrary-result stubs.",
-        NOTE + "Not decided: that the exact basic solution of a basis (B^-1 b, computed by the LU code) is what the verdict functions evaluate -- simplex/LU are out of reach (see C13); the 'infeasible => some position violates' direction of the verdict loops (existential); QSexact_verify.",
+        "Verdict/plumbing layer only. (i) the exact verdict loops ILLfct_check_dfeasible / ILLfct_check_pfeasible under contract with inductive loop invariants (dfcc): FEASIBLE is answered only if no position violates the sign / bound condition (stated at a ghost position; position map capped at 64 entries); (ii) bounded contract checks of ILLbasis_load (status codes -> internal vstat/baz/nbaz/vindex, one basic variable per row position) and of QSload_basis / QSload_basis_array (well-formed bases accepted and stored entry by entry). (iii) ILLfct_compute_dz against its definition in exact arithmetic (bounded 2x2); (iv) ILLlib_getbasis under loop contracts (every returned status is the solver's status, through the column / row maps; maps capped at 64); (v) the plumbing of QSexact_basis_optimalstatus / QSexact_basis_dualstatus (basic solution recomputed for the basis under test, checks with tolerance zero, verdict taken from the flags), callees as arbitrary-result stubs; (vi) QSexact_verify: without the pre-step the exact dual test always runs on the caller's basis, a verdict 1 only comes from a passed exact test; (vii) QSexact_solver with the caller's in/out basis object: after rval 0 / OPTIMAL it holds every column and row status of the basis that passed the exact optimality test (bounded: 1 column, 2 rows).",
+        NOTE + "Not decided: that the exact basic solution of a basis (B^-1 b, computed by the LU code) is what the verdict functions evaluate -- simplex/LU are out of reach (see C13); the 'infeasible => some position violates' direction of the verdict loops (existential).",
         TECH, "DESIGN.md 4/C12"),
     chk("C13", "other",
         "Extraction/ordering layer ONLY: bounded contract checks (2x2, arbitrary column bijection) that ILLlib_tableau hands out the requested inverse row in row order and the tableau row in external column order (structural j from internal column structmap[j], row i's logical from rowmap[i]) and that ILLlib_basis_order reports the external index of each basic column; loop-free proofs that QSget_binv_row / QSget_tableau_row / QSget_basis_order fail without a cached solution (basis, index range) and compute nothing then.",
@@ -68,7 +68,7 @@ CHECKS = [
         NOTE + "Not decided: safety of functions not under contract (simplex, pricing, LU, presolve, writers, most of the readers), uninitialised-value flow through them, whole call sequences beyond what the well-formedness preconditions carry, and bit-identical reproducibility across processes (a property of two executions).",
         TECH, "DESIGN.md 4/C17"),
     chk("C18", "other",
-        "Bounded contract checks of object life cycles with CBMC's memory-leak check and a GMP model in which every initialised number owns a heap token: error memory create/add/free, solution cache alloc/free, basis alloc/export/free, QSread_and_load_basis on a problem that owns a basis, QSexact_basis_status discarding the stale cache (loop-free, callees stubbed), the output stream of QSwrite_prob closed exactly once, QSwrite_basis frees only its local conversion. Allocation failure is explored (malloc may return NULL). Also: the reader's intermediate problem (ILLfree_rawlpdata with the real pointer-world allocator, chunk capacity reduced), the basis-file reader on rejected files, QSexact_solver releasing every basis obtained during the precision ladder, QSexact_basis_optimalstatus / dualstatus releasing the stale cache.",
+        "Bounded contract checks of object life cycles with CBMC's memory-leak check and a GMP model in which every initialised number owns a heap token: error memory create/add/free, solution cache alloc/free, basis alloc/export/free, QSread_and_load_basis on a problem that owns a basis, QSexact_basis_status discarding the stale cache (loop-free, callees stubbed), the output stream of QSwrite_prob closed exactly once, QSwrite_basis frees only its local conversion. Allocation failure is explored (malloc may return NULL). Also: the reader's intermediate problem (ILLfree_rawlpdata with the real pointer-world allocator, chunk capacity reduced), the basis-file reader on rejected files, QSexact_solver releasing every basis obtained during the precision ladder, QSexact_basis_optimalstatus / dualstatus releasing the stale cache, QSexact_verify releasing the pre-step's basis and copy, the MPS data-line handlers on every error position, the MPS reader's objective-name copy, ILLlpdata_free over special-ordered-set information, mpq_EGlpNumSet_mpf on zero.",
         NOTE + "Not decided: leaks inside functions not listed in the evidence (QScreate_prob/QSfree_prob over a populated problem, readers' parse-error paths, simplex, LU), the EGlib slab pool, GMP's own allocator.",
         TECH, "DESIGN.md 4/C18"),
     chk("C19", "other",
